@@ -300,7 +300,7 @@ def run_spelling(case):
                         "missing": mi, "different": di, "args": args, "text": r["text"][-200:]})
             proj = C.sx_project(desc, src=psp)
             projs.append(proj)
-            steps.append(["set", proj, C.sx_cfg(eff["cfg"])])
+            steps.append(["set", proj, C.sx_cfg(eff["cfg"], ppath=psp)])
             steps.append(["run", [[0], []], bool(sp["force"] and case["entry"] == "cli"), None])
     return sx([C.sx_project(desc), C.sx_cfg(desc["cfg"]), steps]), obs, projs, desc
 
@@ -308,18 +308,16 @@ def run_spelling(case):
 def eval_spelling(cases):
     res = vlib.pmap(run_spelling, cases)
     traces = vlib.run_runner("c14-trace", [r[0] for r in res])
-    q_path, q_idem, q_force, idx = [], [], [], []
+    q_idem, q_force, idx = [], [], []
     for i, (_, obs, projs, d) in enumerate(res):
         last = 0
         for k, o in enumerate(obs):
             dec = o["decision"] if o["decision"] in ("no_commands", "up_to_date", "regenerated", "failed") else "failed"
-            q_path.append(sx([[[0], []], projs[last], projs[k], C.sx_cfg(d["cfg"])]))
             q_idem.append(sx([dec, len(o["rewritten"])]))
             q_force.append(sx([dec, o["all_rewritten"]]))
             idx.append((i, k))
             if o["decision"] == "regenerated":
                 last = k
-    path = dict(zip(idx, vlib.run_runner("c14-path", q_path)))
     idem = dict(zip(idx, vlib.run_runner("c14-idem", q_idem)))
     forc = dict(zip(idx, vlib.run_runner("c14-force", q_force)))
     outs = []
@@ -336,9 +334,11 @@ def eval_spelling(cases):
             else:
                 step_ok = idem[(i, k)] == "true"
                 if not step_ok:
-                    if path[(i, k)] == "true" and o["decision"] == "regenerated":
-                        kf = kf or "C14-3"
-                    else:
+                    # with visualize_deps on the project path as spelled is printed into the graph and hashed:
+                    # a run under another spelling legitimately regenerates
+                    if case["viz"] and o["decision"] == "regenerated" and mo[0] == "regenerated":
+                        step_ok = forc[(i, k)] == "true"
+                    if not step_ok:
                         unknown = True
             if (not step_corr or not step_ok) and detail is None:
                 detail = {"step": k, "impl": o, "model": mo[0]}
@@ -455,10 +455,11 @@ def run(rep):
     rng = random.Random(rep.seed)
     from tools.props.c08 import regressions
     allw = witnesses()
-    rep.add("corpus", eval_spelling([c for c in allw if "seq" in c]))
+    regs = regressions("C14")
+    rep.add("corpus", eval_spelling([c for c in allw + regs if "seq" in c]))
     ws = [c for c in allw if "seq" not in c]
     nw = len(ws)
-    outs = eval_rerun(ws + regressions("C14"))
+    outs = eval_rerun(ws + [c for c in regs if "seq" not in c])
     for o in outs[:nw]:
         rep.extra.setdefault("witness_replays", []).append(
             {"case": o.case, "reruns": o.detail["reruns"], "spurious_regenerations": o.detail["spurious_regenerations"],
